@@ -55,6 +55,12 @@ CANDS_BIG.update({"r/c": "dir", "r/c/__init__.py": "file", "r/c/d.py": "file", "
 CANDS_PFX = {"r": "dir", "r/rb": "dir", "r/rb/m.py": "file", "r/rb/n.py": "file", "r/r": "dir", "r/r/m.py": "file", "r/r/n.py": "file", "r/k.py": "file",
              "r/rb/pyk.py": "file", "r/pyd": "dir", "r/pyd/q.py": "file"}
 
+# a scanned package two levels below the root whose own name equals, or is a string prefix of, the name of the
+# directory above it (r/ab/a, r/a/a): the parent-relative spelling 'import a.n' must resolve against module_path's
+# parent however the names repeat along the path
+CANDS_NEST = {"r": "dir", "r/ab": "dir", "r/ab/a": "dir", "r/ab/a/m.py": "file", "r/ab/a/n.py": "file", "r/ab/k.py": "file",
+              "r/a": "dir", "r/a/a": "dir", "r/a/a/m.py": "file", "r/a/a/n.py": "file", "r/a/a/a": "dir", "r/a/a/a/q.py": "file"}
+
 # a directory reachable twice: r/v is a symbolic link to r/common (both locations are directories of the tree)
 CANDS_LINK = {"r": "dir", "r/common": "dir", "r/common/k.py": "file", "r/common/h.py": "file", "r/m.py": "file", "r/v": "dir", "r/v/k.py": "file", "r/v/h.py": "file", "r/w": "dir", "r/w/n.py": "file"}
 LINKS = {"r/v": "r/common"}
@@ -87,6 +93,12 @@ LINESETS = {
         "r/rb/n.py": ["from rb.m import thing"],
         "r/rb/pyk.py": ["import r.pyd.q", "from . import m"],
         "r/pyd/q.py": ["import r.rb.pyk"],
+    },
+    "nested-names": {
+        "r/ab/a/m.py": ["import a.n", "from a import n", "import r.ab.a.n as x", "from . import n"],
+        "r/ab/a/n.py": ["from a.m import thing"],
+        "r/a/a/m.py": ["import a.n", "from a import n", "from a.a import q", "import r.a.a.n"],
+        "r/a/a/a/q.py": ["import a.m", "from a import n", "from .. import m"],
     },
     "linked": {
         "r/common/k.py": ["import r.m", "from . import h"],
@@ -218,7 +230,16 @@ def judge(model: FSModel, view, mp_rel: str, got, full=None):
 
 
 def make_model(inst) -> FSModel:
-    cands = CANDS_DEEP if inst["lines"] == "deep" else CANDS_BIG if inst["lines"] == "big" else CANDS_PFX if inst["lines"] == "prefixpkg" else CANDS_LINK if inst["lines"] == "linked" else CANDS
+    if "cands" in inst:
+        # universe handed in by the caller (C02's statement-pair instances reuse this machinery)
+        fixed = {}
+        p = inst["mp"]
+        while "/" in p:
+            fixed[p] = True
+            p = os.path.dirname(p)
+        fixed.update(inst.get("fixed", {}))
+        return FSModel(dict(inst["cands"]), {k: list(v) for k, v in inst["lineset"].items()}, fixed=fixed)
+    cands = CANDS_NEST if inst["lines"] == "nested-names" else CANDS_DEEP if inst["lines"] == "deep" else CANDS_BIG if inst["lines"] == "big" else CANDS_PFX if inst["lines"] == "prefixpkg" else CANDS_LINK if inst["lines"] == "linked" else CANDS
     mp = inst["mp"]
     fixed = {}
     p = mp
@@ -248,6 +269,11 @@ def instances(tier: str) -> list[dict]:
     for mp in ("r/rb", "r/r"):
         out.append({"part": "scan", "mp": mp, "entry": "path", "lines": "prefixpkg", "relational": False, "cap": CAPS[tier]})
     out.append({"part": "scan", "mp": "r", "entry": "path", "lines": "prefixpkg", "relational": False, "fixed": {"r/r": False}, "cap": CAPS[tier]})
+    out.append({"part": "scan", "mp": "r/ab/a", "entry": "path", "lines": "nested-names", "relational": False, "fixed": {"r/a": False}, "cap": CAPS[tier]})
+    out.append({"part": "scan", "mp": "r/a/a", "entry": "path", "lines": "nested-names", "relational": False, "fixed": {"r/ab": False}, "cap": CAPS[tier]})
+    if tier == "thorough":
+        out.append({"part": "scan", "mp": "r/a/a/a", "entry": "path", "lines": "nested-names", "relational": False, "fixed": {"r/ab": False}, "cap": CAPS[tier]})
+        out.append({"part": "scan", "mp": "r/a/a", "entry": "module", "lines": "nested-names", "relational": False, "fixed": {"r/ab": False}, "cap": CAPS[tier]})
     if tier == "thorough":
         big_fixed = {"r/notes.txt": False, "r/empty": False, "r/a_b": False}
         for mp in ("r", "r/a", "r/c", "r/a/x"):
@@ -324,7 +350,7 @@ def run(tier: str, only: str | None = None) -> int:
     rep.bounds = {
         "candidate_paths": sorted(CANDS_DEEP),
         "depth": "<= 5 path components (root r, r/a/x/y/v.py)",
-        "module_paths": ["r", "r/a", "r/a/x", "r/a_b", "r/a/x/y", "r/rb", "r/r"],
+        "module_paths": ["r", "r/a", "r/a/x", "r/a_b", "r/a/x/y", "r/rb", "r/r", "r/ab/a", "r/a/a", "r/a/a/a"],
         "entry_points": ["get_evaluable_architecture", "get_evaluable_architecture_for_module_objects"],
         "line_sets": LINESETS,
         "path_cap_per_instance": CAPS[tier],
